@@ -13,5 +13,7 @@ CONSTANTS
   NChecks = 0
   MaxVer = 1
   DistShared = FALSE
+  NEntries = 0
+  NestedRead = FALSE
   Part = "fanout"
 INVARIANTS NoLoopVarRace EveryInformerPushed
